@@ -3161,3 +3161,25 @@ for _P, _R in (("C10", "R10.7"), ("C11", "R11.9"), ("C12", "R12.9")):
       "        if otel_event.parent_event_id:\n",
       "        if otel_event.parent_event_id is not None and otel_event.parent_event_id != \"\":\n",
       "explicit spelling of the truthiness test")
+
+# ---- R13.10 the record reaches the span model untouched (seed C13-y) --------
+M("C13", "empty-parent-nulled-before-validation", JDS,
+  "                    try:\n                        yield OTelEvent(**record)",
+  "                    if not record.get(\"parent_event_id\"):\n                        record[\"parent_event_id\"] = None\n                    try:\n                        yield OTelEvent(**record)",
+  "R13.10", "a present empty-string value is turned into null (seed C13-y)")
+M("C13", "record-filtered-before-validation", JDS,
+  "                        yield OTelEvent(**record)",
+  "                        yield OTelEvent(**{k: v for k, v in record.items() if v != \"\"})",
+  "R13.10", "empty strings are dropped from the record before the span is built")
+M("C13", "null-fields-popped", JDS,
+  "                    try:\n                        yield OTelEvent(**record)",
+  "                    if record.get(\"child_event_ids\") is None:\n                        record.pop(\"child_event_ids\", None)\n                    try:\n                        yield OTelEvent(**record)",
+  "R13.10", "the record is modified in place before validation")
+M("C13", "generator-stops-at-first-list", JQC,
+  "            if isinstance(record, list):\n                yield from record\n            else:\n                yield record",
+  "            if isinstance(record, list):\n                yield from record\n                break\n            else:\n                yield record",
+  "R13.10", "outputs after the first list output are lost")
+T("C13", "twin-record-renamed", JDS,
+  "                for record in generate_records_from_compiled_jq(\n                    data, self.compiled_jq\n                ):\n                    try:\n                        yield OTelEvent(**record)",
+  "                for record in generate_records_from_compiled_jq(\n                    data, self.compiled_jq\n                ):\n                    fields = record\n                    try:\n                        yield OTelEvent(**fields)",
+  "an alias of the record")
